@@ -53,7 +53,7 @@ CHECKS["C04"] = (
 CHECKS["C06"] = (
     "fault_enumeration",
     "deterministic simulation with crash-point enumeration: seeded histories, the save's real syscalls recorded at the libc boundary, every crash index x tear variant materialised and recovered by the real loader",
-    "For each generated save (index buckets via save_all/flush_*, residency DB, LRU checkpoint with/without bump and shutdown, disk-cache put) the mutating syscalls the code really issues are recorded by libc interposition; every crash index, every chosen prefix of an in-flight write (process death) and every tear variant of un-synced content (power loss: nothing/prefixes/zeros/stale) is materialised as a directory and recovered by a fresh real loader, which must succeed, show exactly S_old or S_new per object, and stay usable. Complete over crash points within each generated instance; the instances are sampled. One history in three has the object loaded back from disk before it is mutated and saved under the recorder; residency and LRU also start from 'nothing ever saved'; LRU tables up to 64 slots and residency buckets beyond one page give multi-page files; the recovered image is also checked through scan_keys()/size() and by a further flush whose whole content is compared. LRU: in one run in four the recovering manager and its successor have another capacity than the crashed one. Histories include tombstone bursts, status updates, residency spans and 3700-entry buckets (sorted section past 64 KiB).",
+    "For each generated save (index buckets via save_all/flush_*, residency DB, LRU checkpoint with/without bump and shutdown, disk-cache put) the mutating syscalls the code really issues are recorded by libc interposition; every crash index, every chosen prefix of an in-flight write (process death) and every tear variant of un-synced content (power loss: nothing/prefixes/zeros/stale) is materialised as a directory and recovered by a fresh real loader, which must succeed, show exactly S_old or S_new per object, and stay usable. Complete over crash points within each generated instance; the instances are sampled. One history in three has the object loaded back from disk before it is mutated and saved under the recorder; residency and LRU also start from 'nothing ever saved'; LRU tables up to 64 slots and residency buckets beyond one page give multi-page files; the recovered image is also checked through scan_keys()/size() and by a further flush whose whole content is compared. For the residency database the further save is re-loaded and its scan_keys() must be exactly recovered state + fresh key (nothing left over from the interrupted save may leak into it). LRU: in one run in four the recovering manager and its successor have another capacity than the crashed one. Histories include tombstone bursts, status updates, residency spans and 3700-entry buckets (sorted section past 64 KiB).",
     "Trusted: the persistence models P and D (DESIGN.md 2.5) - D is a model of a journalling file system, not an observation; the recorder (checked against strace by the seam self-test); S_old for the index is what the real loader sees before the save.",
     "3/C06",
 )
@@ -61,7 +61,7 @@ CHECKS["C06"] = (
 CHECKS["C07"] = (
     "fault_enumeration",
     "deterministic simulation with corruption enumeration: real writers -> simulated storage/transport that flips, substitutes, truncates, extends -> real readers; seeded put/corrupt/get sequences on the validating caches",
-    "Per generated artifact instance every single-bit flip (plus byte substitutions, every truncation length, extensions) inside the region its checksum is defined over is applied and the real reader must refuse; for the validating caches seeded sequences of validated put / corrupt or delete the backing file / validated get must never return bytes whose MD5 differs from the requested key and must not serve an entry after corruption was detected. Exhaustive over bit positions for artifacts <= 4 KiB; instances are sampled. Whole .idx files (pending update entries) and residency files written by the real save paths are corrupted and read back by the real loaders (IndexManager::load_all, ResidencyDb::load), not only by the stand-alone validators; the checksum bytes themselves are part of the protected region. Whole .idx and residency files span one to four pages of pending entries. Also files planted at a key's backing path, empty and identical values, encoding tables of several pages per table, V1 MIME framed the way the official service frames it.",
+    "Per generated artifact instance every single-bit flip (plus byte substitutions of one byte and of two bytes 1-16 apart - swapped or XORed with one delta -, every truncation length, extensions) inside the region its checksum is defined over is applied and the real reader must refuse; for the validating caches seeded sequences of validated put / corrupt or delete the backing file / validated get must never return bytes whose MD5 differs from the requested key and must not serve an entry after corruption was detected. Exhaustive over bit positions for artifacts <= 4 KiB; instances are sampled. Whole .idx files (pending update entries) and residency files written by the real save paths are corrupted and read back by the real loaders (IndexManager::load_all, ResidencyDb::load), not only by the stand-alone validators; the checksum bytes themselves are part of the protected region. Whole .idx and residency files span one to four pages of pending entries. Also files planted at a key's backing path, empty and identical values, encoding tables of several pages per table, V1 MIME framed the way the official service frames it.",
     "Trusted: the protected region per artifact is taken from the checksum's definition in the code's documentation; 'accepted with logically equal content' is not judged. Single corruptions only.",
     "3/C07",
 )
@@ -93,7 +93,7 @@ CHECKS["C11"] = (
 CHECKS["C13"] = (
     "exploration",
     "deterministic simulation of the three-endpoint fail-over chain: real RibbitTactClient on an in-process simulated network (scripted endpoint behaviours, seeded TCP segmentation and latency, refused/reset/closed/stalled connections) under tokio's paused clock and the interposed libc clock; executable decision table + cache/TTL model + metamorphic re-runs over segmentations",
-    "Seeded search over assignments of behaviours to the three endpoints x endpoint classes x memory/disk protocol cache x TCP segmentations x scripts of query/advance/new-client/swap-behaviours: the request log must be the decision table's prefix of [https, http, tcp], the result Ok iff the stopping endpoint answered well-formed with exactly the document it served, good answers are served from cache with zero network events until the TTL and not after, failures are never cached, and the same script under other segmentations of the same TCP bytes gives identical outcomes. HTTP behaviours include every 5xx/4xx class, and a response whose body stream breaks or stalls after the status line (delivered as a genuine reqwest body error); hops can be disabled by configuration; the request actually sent and the rows returned (against the generated text, not the parser under test) are checked. One run in eight is a CDN run: the real CdnClient (download, download_archive_index) + ProtocolCache over the simulated HTTP transport with per-request behaviour queues, clock jumps around the configured TTLs and new clients on the same directory; a cached object costs no request before its TTL and one after, a failed or truncated download is never cached or returned as Ok, requests name the caller's object, bytes equal what was served. One disk-cache run in six has its cache files emptied or overwritten once (nothing usable is cached afterwards: the chain must be walked). Documents up to 40 KiB, a 9000-byte value, a header line over 512 bytes, V1 MIME with a signature part, and (one run in four) a query for a second endpoint through the same client and cache.",
+    "Seeded search over assignments of behaviours to the three endpoints x endpoint classes x memory/disk protocol cache x TCP segmentations x scripts of query/advance/new-client/swap-behaviours: the request log must be the decision table's prefix of [https, http, tcp], the result Ok iff the stopping endpoint answered well-formed with exactly the document it served, good answers are served from cache with zero network events until the TTL and not after, failures are never cached, and the same script under other segmentations of the same TCP bytes gives identical outcomes. HTTP behaviours include every 5xx/4xx class, a 429 without and with Retry-After in every form (delay seconds, 0, HTTP date, fractional, negative, > u64, a word), and a response whose body stream breaks or stalls after the status line (delivered as a genuine reqwest body error); hops can be disabled by configuration; the request actually sent and the rows returned (against the generated text, not the parser under test) are checked. One run in eight is a CDN run: the real CdnClient (download, download_archive_index) + ProtocolCache over the simulated HTTP transport with per-request behaviour queues, clock jumps around the configured TTLs and new clients on the same directory; a cached object costs no request before its TTL and one after, a failed or truncated download is never cached or returned as Ok, requests name the caller's object, bytes equal what was served. One disk-cache run in six has its cache files emptied or overwritten once (nothing usable is cached afterwards: the chain must be walked). Documents up to 40 KiB, a 9000-byte value, a header line over 512 bytes, V1 MIME with a signature part, and (one run in four) a query for a second endpoint through the same client and cache.",
     "Trusted: the decision table written from the property text; the stubbed transport boundary (kernel TCP, TLS, hyper and reqwest's pool are not exercised; transport failures surface as ProtocolError::Network/Timeout); 10 ms clock-coupling granularity; queries within 10 s of a TTL boundary are not judged.",
     "3/C13",
 )
